@@ -68,15 +68,15 @@ def only_clauses(unit, prop, kinds=("raises", "pre", "frame"), label="exception-
     return dataclasses.replace(unit, prop=prop, post=post, raises=filtered(unit.raises), label=(unit.label + "+" + label).lstrip("+"))
 
 
+R2_MODULES = ["r2_actions", "r2_coremisc", "r2_keys", "r2_linksig", "r2_loaders", "r2_paths", "r2_resolver", "r2_typehelpers"]
+
+
 def carried(prop):
     """Units of the second-round modules (contracts/r2_*.py) that `prop` carries: each module exposes units(prop) and CARRIES = {prop: [target
     suffix (optionally followed by [label]), ...]}; a cNN module appends carried("Cnn") at its very end (after its own names are defined)."""
-    import glob
-    import os
     out = []
-    here = os.path.dirname(os.path.abspath(__file__))
-    for path in sorted(glob.glob(os.path.join(here, "r2_*.py"))):
-        m = importlib.import_module("contracts." + os.path.basename(path)[:-3])
+    for name in R2_MODULES:  # reviewed modules only: a module is listed here once its refuted clauses have been triaged (DESIGN 11.10)
+        m = importlib.import_module("contracts." + name)
         wanted = getattr(m, "CARRIES", {}).get(prop)
         if not wanted:
             continue
